@@ -394,7 +394,9 @@ func (h *HistGen) History(cfg HistCfg) []J {
 					id = h.newId()
 				}
 				if cfg.Malformed && h.G.pick(25) == 0 {
-					id = []string{"not-a-uuid", "0000", strings.Repeat("z", 36), "00000000-0000-0000-0000-00000000000"}[h.G.pick(4)]
+					// (the last three are spellings uuid.FromString accepts but that cannot serve as keys: the index reserves 36 bytes for the id)
+					id = []string{"not-a-uuid", "0000", strings.Repeat("z", 36), "00000000-0000-0000-0000-00000000000", "0000000000004000800000000000abcd",
+						"{00000000-0000-4000-8000-00000000abcd}", "urn:uuid:00000000-0000-4000-8000-00000000abcd"}[h.G.pick(7)]
 				}
 				dm := h.Doc(id)
 				if cfg.Malformed && h.G.pick(30) == 0 {
